@@ -350,6 +350,10 @@ class Gen:
             t = self.stmt(e1, d - 1)
             f = self.stmt(e2, d - 1)
             env.join(e1, e2)
+            if t == ('skip',) and f == ('skip',):
+                # xcmp emits nothing at all for an if whose arms are both skip (documented optimisation), so whether the
+                # condition - here a read - is evaluated is outside the language definition: keep one arm a real statement
+                t = ('seq', [('skip',), ('skip',)])
             return ('if', c, t, f)
         if x < 0.66 and env.counters:
             return self.counter_loop(env, d)
